@@ -381,7 +381,8 @@ func judgeStress(c StressCase, o *vh.Obs) {
 	o.NonTrivial()
 	known := ""
 	for _, p := range ptrs {
-		if strings.HasSuffix(p, "/tax_id/code") && repeatedPrefix(c.Sets[p]) {
+		isTaxCode := strings.HasSuffix(p, "/tax_id/code") || (p == "/code" && d.ShortSch == "tax/identity")
+		if isTaxCode && repeatedPrefix(c.Sets[p]) {
 			// recorded finding: the country prefix is stripped once per calculation
 			o.Class("repeated-country-prefix")
 			known = "fixpoint:repeated-country-prefix"
